@@ -7,6 +7,8 @@ package c06
 
 import (
 	"fmt"
+	"math"
+	"math/big"
 
 	"github.com/zclconf/go-cty/cty"
 	"github.com/zclconf/go-cty/cty/convert"
@@ -129,8 +131,15 @@ func init() {
 			if err := wfAll(c, "UnknownAsNull", cty.UnknownAsNull(u)); err != nil {
 				return err
 			}
-			// double marking must still be a single layer
-			if err := wfAll(c, "Mark(Mark())", v.Mark(spec.Mark("x")).Mark(spec.Mark("y")), v.WithMarks(cty.NewValueMarks(spec.Mark("z"))).Mark(spec.Mark("z"))); err != nil {
+			// marking an already marked value, by any of the marking APIs, must still give a single layer
+			other := cty.StringVal("o").Mark(spec.Mark("w"))
+			if err := wfAll(c, "Mark / WithMarks / WithSameMarks / MarkWithPaths on a possibly marked value",
+				v.Mark(spec.Mark("x")).Mark(spec.Mark("y")),
+				v.WithMarks(cty.NewValueMarks(spec.Mark("z"))).Mark(spec.Mark("z")),
+				v.WithSameMarks(other), v.WithSameMarks(v), v.WithSameMarks(other, v).WithSameMarks(u),
+				v.Mark(spec.Mark("x")).WithMarks(cty.NewValueMarks(spec.Mark("y")), cty.NewValueMarks(spec.Mark("x"))),
+				v.MarkWithPaths([]cty.PathValueMarks{{Path: cty.Path{}, Marks: cty.NewValueMarks(spec.Mark("p"))}}),
+			); err != nil {
 				return err
 			}
 			// rebuild collections from their own accessors
@@ -166,6 +175,60 @@ func init() {
 				}
 			}
 			return nil
+		},
+	})
+
+	facet.Register(facet.F[CollideIn]{
+		Prop: "C06", Name: "ctor/colliding-sets", Quick: 40000, Thorough: 400000, Shards: 4,
+		Rule: "2..6 set members drawn from a collision pool (the same number through different routes and precisions incl. whole numbers beyond 2^53 and 2^64, NFC-equal strings, tuples of those, nulls, unknowns), built with SetVal and through ValueSet Add/Union + SetValFromValueSet; the set must hold no two equal members and satisfy every other well-formedness rule; non-trivial = at least two members are equal by the documented equality but differently constructed",
+		Gen: func(t *rapid.T) CollideIn {
+			in := CollideIn{Kind: rapid.IntRange(0, 2).Draw(t, "kind"), Via: rapid.IntRange(0, 2).Draw(t, "via")}
+			n := rapid.IntRange(2, 6).Draw(t, "n")
+			for i := 0; i < n; i++ {
+				in.Picks = append(in.Picks, rapid.IntRange(0, 63).Draw(t, "pick"))
+			}
+			return in
+		},
+		Check: func(c *facet.Ctx, in CollideIn) error {
+			pool := collidePool(in.Kind)
+			var members []cty.Value
+			seenText := map[string]int{}
+			for _, p := range in.Picks {
+				m := pool[p%len(pool)]
+				members = append(members, m.v)
+				seenText[m.class]++
+			}
+			for _, n := range seenText {
+				if n >= 2 {
+					c.NonTrivial()
+				}
+			}
+			var set cty.Value
+			if guardedPanic(func() {
+				switch in.Via {
+				case 0:
+					set = cty.SetVal(members)
+				case 1:
+					vs := cty.NewValueSet(members[0].Type())
+					for _, m := range members {
+						vs.Add(m)
+					}
+					set = cty.SetValFromValueSet(vs)
+				default:
+					a, b := cty.NewValueSet(members[0].Type()), cty.NewValueSet(members[0].Type())
+					for i, m := range members {
+						if i%2 == 0 {
+							a.Add(m)
+						} else {
+							b.Add(m)
+						}
+					}
+					set = cty.SetValFromValueSet(a.Union(b))
+				}
+			}) {
+				return facet.Failf("ctor-panic", "building a set from %#v panicked", members)
+			}
+			return wfAll(c, fmt.Sprintf("set constructor (route %d) over %#v", in.Via, members), set)
 		},
 	})
 
@@ -526,6 +589,71 @@ func init() {
 			return wfAll(c, "gocty.ToCtyValue", v)
 		},
 	})
+}
+
+// CollideIn is the input of ctor/colliding-sets.
+type CollideIn struct {
+	Kind  int   `json:"kind"` // 0 numbers, 1 strings, 2 tuples
+	Via   int   `json:"via"`
+	Picks []int `json:"picks"`
+}
+
+type collideMember struct {
+	v     cty.Value
+	class string // members of one class are equal by the documented equality
+}
+
+var collidePools [3][]collideMember
+
+func collidePool(kind int) []collideMember {
+	if collidePools[0] == nil {
+		var nums []collideMember
+		add := func(class string, vs ...cty.Value) {
+			for _, v := range vs {
+				nums = append(nums, collideMember{v, class})
+			}
+		}
+		for _, sh := range []uint{0, 53, 60, 63, 64, 70} {
+			i := new(big.Int).Lsh(big.NewInt(1), sh)
+			f, _ := new(big.Float).SetInt(i).Float64()
+			class := "2^" + fmt.Sprint(sh)
+			add(class, cty.MustParseNumberVal(i.String()), cty.NumberFloatVal(f), cty.NumberVal(new(big.Float).SetPrec(24).SetInt(i)), cty.NumberVal(new(big.Float).SetPrec(200).SetInt(i)))
+			if i.IsInt64() {
+				add(class, cty.NumberIntVal(i.Int64()))
+			}
+			if i.IsUint64() {
+				add(class, cty.NumberUIntVal(i.Uint64()))
+			}
+		}
+		add("0", cty.Zero, cty.NumberFloatVal(math.Copysign(0, -1)), cty.MustParseNumberVal("0.0"))
+		add("0.5", cty.NumberFloatVal(0.5), cty.MustParseNumberVal("0.5"), cty.MustParseNumberVal("5e-1"))
+		add("1e20", cty.MustParseNumberVal("1e20"), cty.NumberFloatVal(1e20), cty.MustParseNumberVal("100000000000000000000"))
+		add("null", cty.NullVal(cty.Number))
+		add("unknown", cty.UnknownVal(cty.Number))
+		var strs []collideMember
+		for _, p := range [][]string{{"\u00e9", "e\u0301"}, {"\u00c5", "A\u030a", "\u212b"}, {"\uac00", "\u1100\u1161"}, {"a", "a"}, {"", ""}} {
+			for _, s := range p {
+				strs = append(strs, collideMember{cty.StringVal(s), spec.NFC(s)})
+			}
+		}
+		strs = append(strs, collideMember{cty.NullVal(cty.String), "null"}, collideMember{cty.UnknownVal(cty.String), "unknown"})
+		var tups []collideMember
+		for i, n := range nums {
+			if n.class == "unknown" || i%2 == 1 {
+				continue
+			}
+			s := strs[i%len(strs)]
+			if s.class == "unknown" {
+				continue
+			}
+			tups = append(tups, collideMember{cty.TupleVal([]cty.Value{n.v, s.v}), n.class + "/" + s.class})
+		}
+		for _, n := range nums[:12] {
+			tups = append(tups, collideMember{cty.TupleVal([]cty.Value{n.v, cty.StringVal("k")}), n.class + "/k"})
+		}
+		collidePools = [3][]collideMember{nums, strs, tups}
+	}
+	return collidePools[kind%3]
 }
 
 type wrappedCase struct {
